@@ -36,12 +36,13 @@ def readFull (n : Nat) (rd : Rd) : Option Bytes × Rd := readFullAux rd.chunks n
 /-- `math.MaxInt` on the 64-bit platforms the repository targets -/
 def maxInt : Nat := 2 ^ 63 - 1
 
-/-- `readFixedSize`: `binary.Read` of the prefix (one `make` of its width), then the conversion to `int`. -/
+/-- `readFixedSize`: `binary.Read` of the prefix, then the conversion to `int`.  (The scratch buffer of
+`binary.Read` has the fixed size of the type read: a fixed-size allocation, not charged to `alloc`.) -/
 def readFixedSize (lp : LP) (rd : Rd) : Option Nat × Rd × Cost :=
   match readFull lp.width rd with
-  | (none, rd') => (none, rd', ⟨lp.width, 0⟩)
+  | (none, rd') => (none, rd', {})
   | (some bs, rd') =>
-    if lp = .u64 ∧ maxInt < leNat bs then (none, rd', ⟨lp.width, 0⟩) else (some (leNat bs), rd', ⟨lp.width, 0⟩)
+    if lp = .u64 ∧ maxInt < leNat bs then (none, rd', {}) else (some (leNat bs), rd', {})
 
 /-- `maxReadBytesPreallocation` -/
 def prealloc : Nat := 16384
@@ -128,16 +129,16 @@ mutual
 def runOp : ROp → Rd → ROut
   | .num w, rd =>
     match readFull w rd with
-    | (none, rd') => rfail rd' ⟨w, 0⟩
-    | (some b, rd') => rok rd' (.bytes b) ⟨w, 0⟩
+    | (none, rd') => rfail rd' {}
+    | (some b, rd') => rok rd' (.bytes b) {}
   | .bool, rd =>
     match readFull 1 rd with
-    | (none, rd') => rfail rd' ⟨1, 0⟩
-    | (some b, rd') => rok rd' (.bytes [if b.head? = some 0 then 0 else 1]) ⟨1, 0⟩
+    | (none, rd') => rfail rd' {}
+    | (some b, rd') => rok rd' (.bytes [if b.head? = some 0 then 0 else 1]) {}
   | .arr n, rd =>
     match readFull n rd with
-    | (none, rd') => rfail rd' ⟨n, 0⟩
-    | (some b, rd') => rok rd' (.bytes b) ⟨n, 0⟩
+    | (none, rd') => rfail rd' {}
+    | (some b, rd') => rok rd' (.bytes b) {}
   | .bytes n, rd =>
     match readBytes n rd with
     | (none, rd', a) => rfail rd' ⟨a, 0⟩
